@@ -137,6 +137,7 @@ M = [
 ]
 
 
+NO_RUN = False
 CACHE = {}
 CACHE_PATH = None
 CACHE_LOCK = __import__("threading").Lock()
@@ -155,11 +156,22 @@ def run_one(job):
             CACHE[rec["id"]] = rec["res"]
     if ident in CACHE:
         return tuple(CACHE[ident])
+    if NO_RUN:
+        return _describe(job) + ("NOT-RUN", [])
     res = _run_one(job)
     if CACHE_PATH:
         with CACHE_LOCK, open(CACHE_PATH, "a") as fh:
             fh.write(json.dumps({"id": ident, "res": list(res)}) + "\n")
     return res
+
+
+def _describe(job):
+    kind, payload = job
+    if kind == "mut":
+        prop, file, _old, _new, expect, note = payload
+        return prop, f"{file}: {note}", expect
+    prop, path, expect, note, tier = payload
+    return prop, f"seeded/{os.path.basename(os.path.dirname(path))}: {note}" + (f" [{tier} tier]" if tier != "quick" else ""), expect
 
 
 def _run_one(job):
@@ -187,7 +199,10 @@ def main():
     ap.add_argument("-j", type=int, default=3)
     ap.add_argument("--only")
     ap.add_argument("--cache")
+    ap.add_argument("--no-run", action="store_true", help="build the table from the cache only; rows not in it are listed as not run")
     args = ap.parse_args()
+    global NO_RUN
+    NO_RUN = args.no_run
     if args.cache:
         global CACHE_PATH
         CACHE_PATH = args.cache
@@ -214,16 +229,18 @@ def main():
         "| property | change | expected | result | violation kinds reported |",
         "|---|---|---|---|---|",
     ]
-    bad = 0
+    bad = notrun = 0
     for prop, label, expect, first, kinds in results:
         verdict = first.split()[0] if first else "?"
-        ok = (expect == "caught" and verdict == "CAUGHT") or (expect == "equivalent" and verdict == "MISSED")
+        ok = (expect == "caught" and verdict == "CAUGHT") or (expect == "equivalent" and verdict == "MISSED") or verdict == "NOT-RUN"
         if not ok:
             bad += 1
-        shown = "quiet" if verdict == "MISSED" else verdict.lower()
+        if verdict == "NOT-RUN":
+            notrun += 1
+        shown = "quiet" if verdict == "MISSED" else ("not run in this pass" if verdict == "NOT-RUN" else verdict.lower())
         lines.append(f"| {prop} | {label.replace('|', '/')} | {expect} | {shown}{'' if ok else ' **UNEXPECTED**'} | {', '.join(kinds[:4])} |")
     lines.append("")
-    lines.append(f"{len(results)} changes, {bad} unexpected results.")
+    lines.append(f"{len(results)} changes, {bad} unexpected results." + (f" {notrun} rows were not run in this pass (time budget)." if notrun else ""))
     lines += [
         "",
         "## Seeded changes (written by independent sub-agents that saw only the property text)",
